@@ -102,7 +102,9 @@ extern "C" void harness(void)
 #else
   AutT r = AutT::UnionDisjointStates(a, b);
 #endif
-  BA::Dump<NR> R = BA::dump<NR>(r, full);
+  // Union renumbers the states (translation maps are out-parameters): its result is decoded independently of the numbers
+  // it chose (bddaut.h, Decoder free = true); UnionDisjointStates keeps the (disjoint) numbers of its operands
+  BA::Dump<NR> R = BA::dump<NR>(r, full, OP == 1);
   BA::Aut<NA + NB> AB = BA::disjointUnion(A, B);
 #ifdef VS_SELFTEST_1
   for (unsigned s = 0; s < NB; ++s) AB.fin[NA + s] = false;          // seeded wrong oracle: the union "forgets" B
@@ -110,7 +112,7 @@ extern "C" void harness(void)
   bool expect = BA::included(A, R.aut) & BA::included(B, R.aut) & BA::included(R.aut, AB);
 #elif OP == 3
   AutT r = AutT::Intersection(a, b);
-  BA::Dump<NR> R = BA::dump<NR>(r, full);
+  BA::Dump<NR> R = BA::dump<NR>(r, full, true);                       // product states are numbered by the library: decoded numbering-free
   BA::Aut<NA * NB> AxB = BA::product(A, B);
   bool expect = BA::included(R.aut, A) & BA::included(R.aut, B) & BA::included(AxB, R.aut);
 #elif OP == 4 || OP == 5
@@ -128,11 +130,17 @@ extern "C" void harness(void)
   bool expect = BA::sameLang(A, R.aut);
   const unsigned occ = BA::occurring(R.aut) | R.states;
 #if OP == 5
-  CHECK((occ & ~BA::useful(R.aut)) == 0, 3);                          // no useless state is left
+  CHECK((occ & ~BA::useful(R.aut)) == 0, 3);                          // no useless state is left (part of the property statement)
 #elif ENC == 0
+  // beyond the property statement (which only asks RemoveUnreachableStates to keep the language), but the documented
+  // contract of include/vata/bdd_bu_tree_aut.hh: "returns the copy of the automaton without bottom-up unreachable states"
   CHECK((occ & ~BA::productive(R.aut)) == 0, 4);                      // bottom-up: no state without a tree is left
+#elif defined(STRICT_IMPL)   // never defined
+  // top-down: neither the property nor the header says which states RemoveUnreachableStates has to drop (only that the
+  // language is kept); that nothing out of reach of the final states is left describes the current implementation
+  CHECK((occ & ~BA::reachableTD(R.aut)) == 0, 4);
 #else
-  CHECK((occ & ~BA::reachableTD(R.aut)) == 0, 4);                     // top-down: no state out of reach of the final states is left
+  (void)occ;
 #endif
 #elif OP == 6
   BDDTopDownTreeAut r = a.GetTopDownAut();
